@@ -103,7 +103,23 @@ def runE (variant : String) (sh : Shape) (env : Env) : String :=
     | _ => match writeFitsMemOld sh env with
       | none => "ret=crash steps=imem"
       | some r => res r
-  new ++ " | old " ++ old
+  let pre3 := match variant with
+    | "cpp" => res (writeFitsPre3 sh env)
+    | "c" => let r := cWrapper true (writeFitsPre3 sh env); fmt r.1 r.2
+    | "mem" => res (writeFitsMemPre3 sh env)
+    | _ => let r := cWrapper true (writeFitsMemPre3 sh env); fmt r.1 r.2
+  new ++ " | old " ++ old ++ " | pre3 " ++ pre3
+
+/-- `off hex off hex …`: overwrite the bytes at the given offsets -/
+def patch (bs : Bytes) : List String → Option Bytes
+  | [] => some bs
+  | off :: hx :: rest =>
+    match off.toNat? with
+    | none => none
+    | some off =>
+      let d := unhex hx.toList
+      patch (bs.take off ++ d ++ bs.drop (off + d.length)) rest
+  | _ => none
 
 partial def handle (st : St) (ws : List String) : St × String :=
   match ws with
@@ -143,6 +159,10 @@ partial def handle (st : St) (ws : List String) : St × String :=
   | ["Z", b] =>
     match b.toNat?, st.table with
     | some b, some t => (st, verdict t (st.enc.take (2880 * b) ++ List.replicate 2880 0 ++ st.enc.drop (2880 * (b + 1))))
+    | _, _ => (st, "bad-input")
+  | "X" :: rest =>
+    match st.table, patch st.enc rest with
+    | some t, some bs => (st, verdict t bs)
     | _, _ => (st, "bad-input")
   | "E" :: variant :: nd :: hp :: na :: he :: "|" :: ss =>
     match nd.toNat?, na.toNat? with
